@@ -48,6 +48,14 @@ func genGrowth(seed uint64, thorough bool) *Scenario {
 				cc = append(cc, "must-revalidate")
 			}
 			p.CC = strings.Join(cc, ", ")
+			if U > 1 && g.chance(35) {
+				// replies (also those to the unsafe requests of the cycle) name another URI of the cycle
+				if g.chance(50) {
+					p.Loc, p.LocRes = pick(g, "rel", "abs"), (i+1+g.IntN(U-1))%U
+				} else {
+					p.CLoc, p.CLocRes = pick(g, "rel", "abs"), (i+1+g.IntN(U-1))%U
+				}
+			}
 			res.Plans = append(res.Plans, p)
 		}
 		scn.Resources = append(scn.Resources, res)
